@@ -79,6 +79,19 @@ def strategy_(draw, tier):
             ops.append(["reselect", k])
         elif c < 93:
             ops.append(["fillmode", draw(st.sampled_from([sm.SD_FILL, sm.SD_NOFILL]))])
+        elif c < 96:
+            # a fresh read-write session that switches the fill mode off and on again before anything else
+            # changes, then writes (fill values must be produced again)
+            ops.append(["reopen", "rw"])
+            ops.append(["fillmode", sm.SD_NOFILL])
+            ops.append(["fillmode", sm.SD_FILL])
+            s, sd, cn = sm.draw_slab(draw, shape, unl)
+            ops.append(["write", k, s, sd, cn, draw(st.integers(0, 99))])
+            if unl and s[0] >= 0 and cn[0] > 0:
+                last = s[0] + (cn[0] - 1) * (sd[0] if sd else 1)
+                if 0 <= last < 40 and all(0 <= s[i] and s[i] + (cn[i] - 1) * (sd[i] if sd else 1) < shape[i]
+                                          for i in range(1, len(shape))):
+                    cur[k][0] = max(cur[k][0], last + 1)
         else:
             ops.append(["reopen", draw(st.sampled_from(["rw", "ro"]))])
     # final full read of everything after a reopen
